@@ -116,11 +116,12 @@ type frame struct {
 }
 
 type termer struct {
-	depth int
-	memo  map[ssa.Value]*Term
-	fr    *frame
-	tagOf func(v ssa.Value) int // epoch of a field load (ordtab walker); nil outside walks
-	phiOf func(p *ssa.Phi) ssa.Value // the edge a phi took on the current path (ordtab walker)
+	depth   int
+	memo    map[ssa.Value]*Term
+	fr      *frame
+	tagOf   func(v ssa.Value) int         // epoch of a field load (ordtab walker); nil outside walks
+	phiOf   func(p *ssa.Phi) ssa.Value    // the edge a phi took on the current path (ordtab walker)
+	localOf func(al *ssa.Alloc) ssa.Value // the value last stored into a local on the current path
 }
 
 func newTermer(fr *frame) *termer { return &termer{memo: map[ssa.Value]*Term{}, fr: fr} }
@@ -203,7 +204,12 @@ func (tm *termer) of1(v ssa.Value) *Term {
 	case *ssa.MakeClosure:
 		return &Term{Kind: "closure", Name: fname(x.Fn.(*ssa.Function)), Fn: x.Fn.(*ssa.Function)}
 	case *ssa.Alloc:
-		// address of a local: if it has exactly one whole store, name what was stored
+		// address of a local: the value last stored on the walked path, else its only whole store
+		if tm.localOf != nil {
+			if lv := tm.localOf(x); lv != nil {
+				return tm.of(lv)
+			}
+		}
 		if sv := singleStore(x); sv != nil {
 			return tm.of(sv)
 		}
